@@ -6,6 +6,8 @@ import vlib
 import thermogen
 from vlib import g_list, g_Q, g_bool
 
+COQ_DEPS = ['Thermo/Corr.vo']
+
 TOLQ = '1 # 1000000000'      # 1e-9 relative to the case's scale, inside Coq
 REGIONS = ('below', 'min', 'inside', 'knot', 'max', 'above')
 
